@@ -41,13 +41,13 @@ def run_spec(ctx, cfg, what, shards=None, env=None, timeout=1700, expect_violati
     return progs, results
 
 
-def run_file_family(ctx, cfg, pvs, what, shards=None):
+def run_file_family(ctx, cfg, pvs, what, shards=None, expect_violation=False):
     """feed drawn parameter vectors to the same spec through IOEnv.PV_FILE"""
     fd, path = tempfile.mkstemp(suffix=".json", prefix="inst_pv_")
     with os.fdopen(fd, "w") as f:
         json.dump(pvs, f)
     try:
-        return run_spec(ctx, cfg, what, shards=shards, env={"PV_FILE": path})
+        return run_spec(ctx, cfg, what, shards=shards, env={"PV_FILE": path}, expect_violation=expect_violation)
     finally:
         os.unlink(path)
 
